@@ -277,7 +277,7 @@ def check_log_types(c, repo):
         for k in ks:
             n_sites += 1
             n = g.node_for(k)
-            labs = set(L.labels_at(n, log_parts(k)[0])) - {'const'}
+            labs = set(L.labels_at(n, log_parts(k)[0])) - {'const', 'final-true'}      # how the decoder is flushed is C07's concern
             if f.name == '_log_control':
                 # bytes mode logs the byte, text mode the decoded byte: accept text / ctrlbyte under the encoding test
                 tests = [t for t in g.nodes if t.kind == 'test' and norm(t.ast) == 'self.encoding is not None']
